@@ -2,6 +2,7 @@ package main
 
 import (
 	"fmt"
+	"go/constant"
 	"go/token"
 	"go/types"
 	"sort"
@@ -591,6 +592,25 @@ func ruleCommentCannotSwallow(c *Ctx) {
 			}
 		}
 	})
+	if !appendsNL {
+		// folded: whatever layout is pending, a line break is pending afterwards (and nothing is written)
+		if w := c.writerCfg(); w != nil {
+			all := true
+			for _, pd := range [][]rune{nil, {' '}, {'\t'}, {'\n'}, {'\n', '\t'}, {' ', '\t'}} {
+				after, em, ok, _ := c.foldLayoutMethod(nl, pd, map[*types.Var]constant.Value{w.pretty: constant.MakeBool(true)}, 'x')
+				has := false
+				for _, r := range after {
+					if r == '\n' {
+						has = true
+					}
+				}
+				if !ok || !has || len(em) > 0 {
+					all = false
+				}
+			}
+			appendsNL = all
+		}
+	}
 	c.check(appendsNL, "WriteNewline: makes a line break pending", nl.Pos(), "appends '\\n' to the pending buffer", "WriteNewline does not leave a line break pending")
 	// who may clear the pending buffer
 	for _, f := range c.libFunctions("ast", "compiler", "debug") {
@@ -863,22 +883,8 @@ func commentSubstringOK(lf *lexFacts, sk *ssa.Function, v ssa.Value) bool {
 	if !instrDominates(low, high) || !instrDominates(high, sl) {
 		return false
 	}
-	// no advance between reading the end and taking the slice (same block, checked instruction by instruction)
-	if high.Block() != sl.Block() {
-		return false
-	}
-	seen := false
-	for _, in := range high.Block().Instrs {
-		if in == ssa.Instruction(high) {
-			seen = true
-		}
-		if in == ssa.Instruction(sl) {
-			break
-		}
-		if c2, ok := in.(*ssa.Call); ok && seen && lf.mayAdvance(c2.Call.StaticCallee()) {
-			return false
-		}
-	}
+	// (the end is the value the position had when it was read — advancing afterwards, over the line break, does not
+	// change it)
 	// at the end read, the current byte is the line end or the end of input
 	cxs := lf.contextsOf(sk)
 	if len(cxs) == 0 {
